@@ -130,7 +130,7 @@ class E:
 def emb(e, amb, paren=True):
     """text of e for a position whose ambient notation scope is amb ('?' = unknown)"""
     if e.scope not in ("*", amb):
-        return "(%s)%%%s" % (e.text, e.scope)
+        return ("%s%%%s" if e.text.isdigit() else "(%s)%%%s") % (e.text, e.scope)
     if paren and not e.atomic:
         return "(%s)" % e.text
     return e.text
@@ -276,7 +276,10 @@ def pure_expr(n):
 
 def log_text(s):
     out = [x["value"] for x in walk(s) if x.get("kind") == "StringLiteral"]
-    return out[-1] if out else ""
+    if not out:
+        return ""
+    fmt = out[0].strip('"').replace("%c %s:%d: ", "").replace("\\n", "")
+    return out[-1].strip('"') if fmt == "%s" else fmt
 
 
 def contains(n, kinds, stop=()):
@@ -370,6 +373,23 @@ def ind(text, n=2):
     return "\n".join((" " * n + l) if l else l for l in text.split("\n"))
 
 
+def grouped(text):
+    """text, in parentheses unless it is an identifier or already one parenthesised group"""
+    if text.replace("'", "").replace("_", "").isalnum():
+        return text
+    depth = 0
+    for i, ch in enumerate(text):
+        depth += ch == "("
+        depth -= ch == ")"
+        if depth == 0 and i < len(text) - 1:
+            return "(%s)" % text
+    return text
+
+
+def ok(text):
+    return "Ok %s" % grouped(text)
+
+
 def tuple_text(parts):
     return "tt" if not parts else parts[0] if len(parts) == 1 else "(%s)" % ", ".join(parts)
 
@@ -408,6 +428,7 @@ class Fn:
         return name
 
     def need(self, flag):
+        self.uses[flag] = self.uses.get(flag, 0) + 1
         if not self.flags[flag]:
             self.flags[flag] = True
             raise Retry()
@@ -428,12 +449,12 @@ class Fn:
         return t
 
     def wrap_ok(self, text):
-        return "Ok (%s)" % text if self.flags["monadic"] else text
+        return ok(text) if self.flags["monadic"] else text
 
     def returning(self, text):
         """the function returns the result tuple `text` (from inside a loop: through Ret)"""
         if self.loops:
-            return "Ok (Ret (%s))" % text
+            return "Ok (Ret %s)" % grouped(text)
         return self.wrap_ok(text)
 
     def fault(self, what):
@@ -522,8 +543,13 @@ class Fn:
             to, i2 = node_type(n), strip_parens(inner)
             if to.kind != "int":
                 bad(n, "cast to %s" % n["type"]["qualType"])
-            if i2.get("kind") == "IntegerLiteral":
-                v = int(i2["value"])
+            is_enum = i2.get("kind") == "DeclRefExpr" and i2["referencedDecl"]["kind"] == "EnumConstantDecl"
+            if i2.get("kind") == "IntegerLiteral" or is_enum:
+                v = self.tu.enums[i2["referencedDecl"]["name"]] if is_enum else int(i2["value"])
+                if is_enum and not (0 <= v < (1 << (to.bits - 1))):
+                    bad(n, "cast of a negative / large enum constant")
+                if is_enum:
+                    return E("%d (* %s *)" % (v, i2["referencedDecl"]["name"]), to.scope(), to)
                 if not to.signed:
                     v %= 1 << to.bits                     # conversion to unsigned is modular
                 elif not -(1 << (to.bits - 1)) <= v < (1 << (to.bits - 1)):
@@ -679,7 +705,8 @@ class Fn:
             ep, ei = self.ex(a), self.ex(b)
             if not self.is_byte_ptr(ep.ty) or ei.ty.kind != "int":
                 bad(n, "arithmetic on a pointer that is not a byte pointer")
-            if not ei.ty.signed and op == "+":
+            if op == "+" and (not ei.ty.signed or ei.text.isdigit()):
+                ei = self.index(ei)
                 return self.hoist("ptr_add %s %s" % (emb(ep, "?"), emb(ei, "N")), ty)
             z = emb(ei, "Z") if ei.ty.signed else "(Z.of_N %s)" % emb(ei, "N")
             return self.hoist("ptr_add_z %s %s" % (emb(ep, "?"), z if op == "+" else "(- %s)%%Z" % z), ty)
@@ -1213,7 +1240,7 @@ class Fn:
                 self.env[v.name] = v
             self.pre, self.aux, self.dropped, self.loops, self.breaks = [], [], [], [], []
             self.ntmp = self.njoin = self.nsw = self.nloop = 0
-            self.top_call = None
+            self.top_call, self.uses = None, {}
             if self.ret.kind == "void":
                 end = lambda: self.wrap_ok(tuple_text(self.result_parts(None)))
             else:
@@ -1231,7 +1258,7 @@ class Fn:
         doc = "(* C: %s, type %s *)" % (self.name, src.replace("(*", "( *").replace("*)", "* )"))
         if self.dropped:
             doc += "\n(* logging dropped: %s *)" % "; ".join(
-                repr(d.strip()).replace("(*", "( *").replace("*)", "* )") for d in self.dropped)
+                '"%s"' % d.replace("(*", "( *").replace("*)", "* )") for d in self.dropped)
         out = self.aux + ["%s\nDefinition %s %s : %s :=\n%s." % (doc, self.name, " ".join(ps), rt, ind(text))]
         return "\n\n".join(out)
 
